@@ -27,7 +27,7 @@ def free_port():
 
 class Server(object):
     def __init__(self, kind="sync", workers=1, bind="tcp", timeout=30, graceful=4, extra=(), conf_lines=(), pidfile=True,
-                 env=None, threads=None, keepalive=None, bind_in_conf=False):
+                 env=None, threads=None, keepalive=None, bind_in_conf=False, daemon=False):
         self.scratch = tempfile.mkdtemp(prefix="verif-r-")
         os.chmod(self.scratch, 0o755)
         self.kind = kind
@@ -58,6 +58,9 @@ class Server(object):
             args += ["--threads", str(threads)]
         if keepalive is not None:
             args += ["--keep-alive", str(keepalive)]
+        self.daemon = daemon
+        if daemon:
+            args += ["-D", "--error-logfile", self.log]
         args += list(extra) + ["rapp:app"]
         e = dict(os.environ)
         e.update({"PYTHONPATH": REPO + os.pathsep + RFILES, "VERIF_SCRATCH": self.scratch, "PYTHONWARNINGS": "ignore",
@@ -71,6 +74,19 @@ class Server(object):
         self.pid = self.proc.pid
         self.sid = self.pid
         self.extra_masters = []
+        if daemon:
+            # the launcher exits after the double fork; the real master is named by the pid file
+            self.proc.wait(timeout=20)
+            t0 = time.time()
+            self.pid = None
+            while time.time() - t0 < 15:
+                try:
+                    self.pid = int(open(self.pidfile).read().strip())
+                    break
+                except (OSError, ValueError):
+                    time.sleep(0.05)
+            st = stat(self.pid) if self.pid else None
+            self.sid = st["sid"] if st else -1
 
     def write_conf(self, lines=None):
         if lines is not None:
@@ -106,7 +122,7 @@ class Server(object):
     def wait_ready(self, limit=25.0):
         t0 = time.time()
         while time.time() - t0 < limit:
-            if self.proc.poll() is not None:
+            if self.proc.poll() is not None and not self.daemon:
                 return False
             r, data, err = self.request("/pid", timeout=2.0)
             if r is not None and r.ok and r.status == 200:
@@ -137,6 +153,13 @@ class Server(object):
 
     def wait_exit(self, limit):
         """-> exit status of the master or None if still running after `limit` seconds"""
+        if self.daemon:
+            t0 = time.time()
+            while time.time() - t0 < limit:
+                if not alive(self.pid):
+                    return 0
+                time.sleep(0.05)
+            return None
         try:
             return self.proc.wait(timeout=limit)
         except subprocess.TimeoutExpired:
@@ -168,7 +191,8 @@ class Server(object):
             except OSError:
                 pass
         try:
-            os.killpg(self.sid, signal.SIGKILL)
+            if self.sid and self.sid > 1:
+                os.killpg(self.sid, signal.SIGKILL)
         except OSError:
             pass
         try:
